@@ -585,6 +585,24 @@ func (env *Env) evalCall(n *ECall) TV {
 		return TV{T: StrAt(arg(0).T, arg(1).T), Typ: types.Typ[types.Uint8]}
 	case "substr":
 		return TV{T: App(SStr, "str_sub", arg(0).T, arg(1).T, arg(2).T), Typ: types.Typ[types.String]}
+	case "runesub":
+		// runesub(s, i, j): string([]rune(s)[i:j])
+		e.declareFun("runes_of", []Sort{SStr}, ArraySort(SInt, SInt))
+		e.declareFun("str_from_runes", []Sort{ArraySort(SInt, SInt), SInt, SInt}, SStr)
+		return TV{T: App(SStr, "str_from_runes", App(ArraySort(SInt, SInt), "runes_of", arg(0).T), arg(1).T, Sub(arg(2).T, arg(1).T)), Typ: types.Typ[types.String]}
+	case "flit":
+		// flit("1.5"), flit("-1.0"): a float64 literal
+		sx, ok := n.Args[0].(*EStr)
+		if !ok {
+			evalFail("flit: literal expected")
+		}
+		lit := sx.V
+		if strings.HasPrefix(lit, "-") {
+			lit = "(- " + lit[1:] + ")"
+		}
+		return TV{T: mk(SF64, "((_ to_fp 11 53) RNE "+lit+")"), Typ: types.Typ[types.Float64]}
+	case "fzero":
+		return TV{T: App(SBool, "fp.isZero", arg(0).T), Typ: types.Typ[types.Bool]}
 	case "calls":
 		// calls("callee"): number of calls to callee made so far by this activation
 		sx, ok := n.Args[0].(*EStr)
